@@ -174,10 +174,7 @@ func C03Plan() *vlib.Plan {
 		Assume: []string{"scripted peer speaks CLAIMTOBE only; TOKEN-only lists meet it through the deviation cases", "SSL/KERBEROS/SCITOKENS/FS excluded (cannot complete offline / need a mount namespace)"},
 	}
 	p.Gen = func(tier string, yield func(vlib.Case)) {
-		integs := []security.SecurityLevel{security.SecurityOptional}
-		if tier == "thorough" {
-			integs = append(integs, security.SecurityRequired)
-		}
+		integs := []security.SecurityLevel{security.SecurityOptional, security.SecurityRequired}
 		p.Bounds = map[string]any{"server_role_peers": len(c03ServerPeers), "client_role_peers": len(c03ClientPeers), "method_lists": 4}
 		for _, role := range []string{"client", "server"} {
 			for _, kind := range []string{"plain", "authed-keyless", "keyed-unauth", "keyed-unauth-predicted", "plain-predicted"} {
